@@ -83,10 +83,10 @@ add("C12", "model_checking",
 
 add("C16", "model_checking",
     "Stateless model checking of the real templates under a controlled scheduler: real pthreads, exactly one runnable, scheduling point at every storage access (probe backend hook) plus each thread's tail; all interleavings of the 2-thread programs and all interleavings with at most 2 (quick) / 3 (thorough) preemptions of the 3-thread programs, "
-    "for every storage order x {direct, nearest, linear} x N in 1..3, shared and per-thread views, readers and a writer on disjoint cells. Each schedule is compared with the sequential run (results, final storage) and scanned for conflicting accesses; failing schedules are replayed twice. "
+    "for every storage order x {direct, nearest, linear} x N in 1..3, shared and per-thread views (also per-thread views of a field no view was ever made of - the state after loading or conversion), readers and a writer on disjoint cells; every execution runs on freshly created worker threads. Each schedule is compared with the sequential run (results, final storage) and scanned for conflicting accesses; failing schedules are replayed twice. "
     "Two further explorations refine the grain without source hooks: function entries as scheduling points (-finstrument-functions) and, for first-use state, every schedule in a freshly forked child with a scheduling point at every basic block of covfie code (-fsanitize-coverage=trace-pc). Blocking primitives a correct library might use (static-init guards, pthread mutexes) are interposed so that waiting is visible to the scheduler. "
     "Free-running ThreadSanitizer passes (warm and cold start, T up to 16), an object-file inventory of writable static data in covfie::, and a Spin model of the scheduler protocol itself complete it.",
-    "sequentially consistent hand-off; T<=3 under the scheduler; configurations that exceed their wall-clock budget are reported as capped (never as violations); TSan pass is a detector, not an enumeration",
+    "sequentially consistent hand-off; T<=3 under the scheduler; configurations that exceed their wall-clock budget, or whose recorded prefixes stop replaying because the code under test keeps process-wide state across executions, are reported as capped (never as violations); TSan pass is a detector, not an enumeration",
     "preemption-bounded exhaustive schedule enumeration of the implementation under a hooked cooperative scheduler (CHESS-style), plus TSan free run",
     "DESIGN.md 2/C16", "E2+E5")
 
@@ -111,19 +111,19 @@ add("C17", "exploration",
     "bounded-exhaustive enumeration of stacks (grammar cover + depth 1..10 helper chains) with read-back / rebuild oracle on the implementation",
     "DESIGN.md 2/C17", "E3+E4")
 add("C06", "model_checking",
-    "States are distinct byte streams: for every stack of the serialisable catalogue x configuration variants (ordinary, special values in every blob, 1-cell extents) x stored bit patterns (rotations and every scalar position in turn) the real dump is produced, dissected by an independent format automaton, "
+    "States are distinct byte streams: for every stack of the serialisable catalogue x configuration variants (ordinary, special values in every blob, 1-cell extents, empty field, a payload of several KiB) x stored bit patterns (rotations and every scalar position in turn) the real dump is produced, dissected by an independent format automaton, "
     "loaded by the real reader and compared typed: every layer's configuration bit-identical, every stored scalar bit-identical, re-dump byte-identical, exact consumption; two builds.",
     "little-endian x86-64; catalogue = adjacency cover (every layer and adjacency), not every stack",
     "exhaustive enumeration of (stack, configuration variant, bit pattern, position) with a format automaton as model; every transition (dump, load, re-dump) run on the implementation",
     "DESIGN.md 2/C06", "E4+E7")
 add("C07", "model_checking",
     "The format automaton is the model; conformance runs in both directions: every implementation dump is accepted by it (C06), and every ordered pair of catalogue stacks with identical on-disk footprint (differing in interpolator, coordinate precision, footprint-free wrappers and/or float width) "
-    "is exercised writer->reader over a narrowing-critical finite alphabet with a software round-to-nearest-even oracle; 410 committed golden files pin the bytes across revisions (load, re-dump, rebuild-from-recipe == golden).",
+    "is exercised writer->reader over a narrowing-critical finite alphabet (small fields and a several-KiB variant) with a software round-to-nearest-even oracle; 410 committed golden files pin the bytes across revisions (load, re-dump, rebuild-from-recipe == golden).",
     "golden files were written by the pinned revision plus its fix: commits; finite values only",
     "exhaustive pair enumeration over the catalogue + golden-file conformance, format automaton as bound model",
     "DESIGN.md 2/C07", "E4+E7")
 add("C08", "fault_enumeration",
-    "Complete enumeration of the fault space of every catalogue dump (ordinary and empty-field variant): every truncation point, every labelled header/footer/tag/width word x a replacement alphabet, every foreign writer the reader's grammar rejects, and a stream failing at the n-th read for every n; "
+    "Complete enumeration of the fault space of every catalogue dump (ordinary and empty-field variant): every truncation point, every labelled header/footer/tag/width word x a replacement alphabet, every foreign writer the reader's grammar rejects, and a stream failing at the n-th read for every n, each put to the loader by a caller with the default stream exception mask and by one who enabled exceptions(failbit|badbit[|eofbit]); "
     "each load runs in a forked child with an alarm so abort / signal / hang are observed; three build/oracle combinations incl. valgrind memcheck for decisions on uninitialised data. The demand is exactly 'an exception'.",
     "count word never corrupted; 'incompatible' defined by the reader's format grammar; memcheck on a strided subset of cases",
     "exhaustive fault-point enumeration (crash points = every byte offset; fault alphabet per labelled word) on the implementation with a fault-injecting stream",
